@@ -167,6 +167,10 @@ def sweep(ctx, failures):
 
 
 def run(ctx):
+    # wrapper summaries regenerated from the source (accumulate-with-+= contract of every op) and the multi-pass scenarios
+    # over every catalogued op (retained / former-root buffers, reused upstream gradients): checks/wrappers.py
+    from checks import wrappers as _wrappers
+    _wrappers.run_part(ctx)
     rng = ctx.rng
     ctx.build_props(extra_targets=["Engine/History.vo"])
     nprog = 480 if ctx.quick else 6000
